@@ -159,7 +159,7 @@ class Interp:
         val = None
         for g, v, _ in reversed(fr.returns):
             val = v if (val is None and g == TRUE) else ('ite', g, v, val if val is not None else NONE)
-        return simp(val)
+        return simp_top(val)
 
     # ---- helpers -------------------------------------------------------------------
     def emit(self, e):
@@ -391,11 +391,11 @@ class Interp:
             start = dom[2][1] if len(dom[2]) > 1 else dict(dom[3]).get('start', C(0))
             if inner[0] == 'call' and inner[1] == S('zip') and isinstance(tgt.elts[1], ast.Tuple):
                 b = self.bind_zip(tgt.elts[1], inner, env)
-                self.bind(tgt.elts[0], simp(BIN('Add', b, start)) if start != C(0) else b, env)
+                self.bind(tgt.elts[0], simp_top(BIN('Add', b, start)) if start != C(0) else b, env)
                 return b
             h2 = tgt.elts[1].id if isinstance(tgt.elts[1], ast.Name) else 'it'
             b = self.new_binder(inner, h2)
-            self.bind(tgt.elts[0], ('indexof', b) if start == C(0) else simp(BIN('Add', ('indexof', b), start)), env)
+            self.bind(tgt.elts[0], ('indexof', b) if start == C(0) else simp_top(BIN('Add', ('indexof', b), start)), env)
             self.bind(tgt.elts[1], b, env)
             return b
         if dom[0] == 'call' and dom[1] == S('zip') and isinstance(tgt, (ast.Tuple, ast.List)) and len(tgt.elts) == len(dom[2]):
@@ -419,7 +419,7 @@ class Interp:
                 fr.defdepth[tgt.id] = fr.loopdepth
         elif isinstance(tgt, (ast.Tuple, ast.List)):
             for k, e in enumerate(tgt.elts):
-                self.bind(e, simp(I(val, C(k))), env, fr)
+                self.bind(e, simp_top(I(val, C(k))), env, fr)
         else:
             raise Unknown('bind target ' + type(tgt).__name__)
 
@@ -707,7 +707,7 @@ class Interp:
             self.emit(Eff('augstore', fr.func, s, target=tt, op=op, value=v))
             cur = self.heap.get(tt)
             if cur is not None:
-                self.heap[tt] = simp(BIN(op, cur, v))
+                self.heap[tt] = simp_top(BIN(op, cur, v))
             return
         if isinstance(s, ast.Return):
             v = self.ex(s.value, fr) if s.value is not None else NONE
@@ -762,15 +762,18 @@ class Interp:
     def assign(self, tgt, v, fr, s):
         if isinstance(tgt, ast.Name):
             if self.is_outer(tgt.id, fr):
-                # plain assignment, inside a loop, to a variable that lives outside it: loop-carried
+                # plain assignment, inside a loop, to a variable that lives outside it: loop-carried for the value after
+                # the loop, but for the rest of THIS iteration the variable simply holds v
                 self.emit(Eff('acc', fr.func, s, var=tgt.id, op='assign', index=None, value=v))
+                if v[0] not in ('lpref',):
+                    fr.env[tgt.id] = v
                 return
             fr.env[tgt.id] = v
             fr.defdepth[tgt.id] = fr.loopdepth
             return
         if isinstance(tgt, (ast.Tuple, ast.List)):
             for k, e in enumerate(tgt.elts):
-                self.assign(e, simp(I(v, C(k))), fr, s)
+                self.assign(e, simp_top(I(v, C(k))), fr, s)
             return
         if isinstance(tgt, ast.Subscript) and isinstance(tgt.value, ast.Name) and tgt.value.id in fr.env \
                 and fr.env[tgt.value.id][0] not in ('sym', 'attr', 'bvar', 'idx') and not isinstance(tgt.slice, ast.Slice):
@@ -819,12 +822,12 @@ class Interp:
             return
         cur = fr.env[name]
         if cur[0] == 'lpref' and op in ('add', 'sub'):
-            self.lpstore[cur[1]] = simp(BIN('Add' if op == 'add' else 'Sub', self.lpstore[cur[1]], val))
+            self.lpstore[cur[1]] = simp_top(BIN('Add' if op == 'add' else 'Sub', self.lpstore[cur[1]], val))
             return
         if op == 'add':
-            fr.env[name] = simp(BIN('Add', cur, val))
+            fr.env[name] = simp_top(BIN('Add', cur, val))
         elif op == 'sub':
-            fr.env[name] = simp(BIN('Sub', cur, val))
+            fr.env[name] = simp_top(BIN('Sub', cur, val))
         elif op == 'append':
             fr.env[name] = cat(cur, ('list', (val,)))
         elif op == 'extend':
@@ -832,7 +835,7 @@ class Interp:
         elif op in ('setidx', 'addidx', 'appendidx', 'extendidx', 'setslice', 'setadd', 'setupdate'):
             fr.env[name] = ('upd', cur, op, index, val)
         else:
-            fr.env[name] = simp(BIN(op, cur, val))
+            fr.env[name] = simp_top(BIN(op, cur, val))
 
     def stmt_if(self, s, fr):
         c = as_cond(self.ex(s.test, fr))
@@ -856,7 +859,7 @@ class Interp:
             if a is None or b is None or (c1 and not c2) or (c2 and not c1):
                 lpm[k] = (b if (c1 and not c2) else a) if (a is not None and b is not None) else (a if a is not None else b)
             else:
-                lpm[k] = a if a == b else simp(('ite', c, a, b))
+                lpm[k] = a if a == b else simp_top(('ite', c, a, b))
         self.lpstore = lpm
         # merge
         env, dd = {}, {}
@@ -870,7 +873,7 @@ class Interp:
             elif a == b:
                 env[k] = a
             else:
-                env[k] = simp(('ite', c, a if a is not None else TOP('undefined ' + k), b if b is not None else TOP('undefined ' + k)))
+                env[k] = simp_top(('ite', c, a if a is not None else TOP('undefined ' + k), b if b is not None else TOP('undefined ' + k)))
             if k in env:
                 dd[k] = min(d1.get(k, fr.loopdepth), d2.get(k, fr.loopdepth))
         heap = {}
@@ -878,7 +881,7 @@ class Interp:
             a, b = h1.get(k, k), h2.get(k, k)
             if not live1 and live2: heap[k] = b
             elif not live2 and live1: heap[k] = a
-            else: heap[k] = a if a == b else simp(('ite', c, a, b))
+            else: heap[k] = a if a == b else simp_top(('ite', c, a, b))
         fr.env, fr.defdepth, self.heap = env, dd, heap
         fr.ctrl = c1 if (c1 and c2) else None   # both branches leave
         self.emit(Eff('if', fr.func, s, cond=c, then=b1, orelse=b2, ctrl=(c1, c2)))
@@ -1124,6 +1127,27 @@ def collect_acc(effs, name, chain, guard=TRUE):
     return out
 
 
+def _conj(g):
+    return list(g[2]) if (g[0] == 'bool' and g[1] == 'and') else [g]
+
+
+def _pairwise_exclusive(guards):
+    for i, a in enumerate(guards):
+        for b in guards[i + 1:]:
+            ca, cb = _conj(a), _conj(b)
+            def neg_subset(xs, ys):
+                # some conjunct of ys is the negation of a conjunction of conjuncts of xs
+                for y in ys:
+                    if y[0] == 'not' and y[1][0] == 'bool' and y[1][1] == 'and' and all(p in xs for p in y[1][2]):
+                        return True
+                return False
+            ok = (NOT(a) in cb or NOT(b) in ca or any(NOT(x) in cb for x in ca) or any(NOT(x) in ca for x in cb)
+                  or neg_subset(ca, cb) or neg_subset(cb, ca))
+            if not ok:
+                return False
+    return True
+
+
 def fold_acc(pre, entries, name, lid):
     if not entries:
         return pre
@@ -1134,8 +1158,24 @@ def fold_acc(pre, entries, name, lid):
             acc = BIN('Add' if op == 'add' else 'Sub', acc, ('sum', ch, v))
         return acc
     if ops <= {'append'}:
-        acc = pre
-        for op, _, v, ch, _ in entries:
-            acc = cat(acc, ('comp', ch, v))
-        return acc
+        if len(entries) == 1:
+            return cat(pre, ('comp', entries[0][3], entries[0][2]))
+        binders = [tuple(b[1] for b, _ in en[3]) for en in entries]
+        if all(bs == binders[0] for bs in binders):
+            # several append sites in ONE loop body: they interleave.  With mutually exclusive guards (if / elif chains) the
+            # list is a single comprehension whose element is selected by the guards.
+            guards = [en[3][-1][1] for en in entries]
+            outer = entries[0][3][:-1]
+            if all(o[1] == oo[1] for en in entries for o, oo in zip(en[3][:-1], outer)) and _pairwise_exclusive(guards):
+                val = None
+                for en, g in reversed(list(zip(entries, guards))):
+                    val = en[2] if val is None else ('ite', g, en[2], val)
+                allg = OR(*guards)
+                last = entries[0][3][-1][0]
+                return cat(pre, ('comp', outer + ((last, allg),), simp_top(val)))
+        elif not any(set(a) & set(b) for i_, a in enumerate(binders) for b in binders[i_ + 1:]):
+            acc = pre                       # sequential loops: plain concatenation in program order
+            for op, _, v, ch, _ in entries:
+                acc = cat(acc, ('comp', ch, v))
+            return acc
     return ('accum', pre, tuple((op, idx if idx is not None else NONE, v, ch) for op, idx, v, ch, _ in entries), name, lid)
